@@ -27,7 +27,11 @@ methods, so a broken method cannot hide itself):
 * if unjelly returns: every object reached is a basic value whose jelly type the policy allows, one of
   jelly's own placeholders (Unpersistable, NotKnown family), a module with an allowed name, a class in
   allowedClasses (or registered with setUnjellyableForClass), a function whose `__module__` is allowed,
-  a bound method of those, or an instance of an allowed / registered class.
+  a bound method of those, an instance of an allowed / registered class, or a member of an allowed
+  class's *own* namespace (`vars(cls)`); whatever a class merely inherits is judged by its own
+  `__module__` / class (functions, classes, descriptors, `__func__`/`__self__` of methods).
+* the classes of the non-allowed harness module record every `__new__`/`__init__`/method call: none of
+  them may be constructed or called (checked also when unjelly raises).
 * round trip: unjelly(jelly(g)) is isomorphic to g (types, values, shared mutable nodes shared, cycles
   closed) for graphs of allowed instances, lists, tuples, dicts, sets, frozensets, dates, decimals,
   bound methods.
@@ -67,7 +71,7 @@ ASSUMPTIONS = ["trusted base: the policy model read from the SecurityOptions con
                "dangerous callables are represented by canaries (record + raise); the real ones are never reachable from a generated name",
                "only SecurityOptions-based policies are used (bytes/int/float atoms are always allowed by them)"]
 SHARDS = {"quick": 4, "thorough": 16}
-FLOORS = {"unjelly_calls": 20000, "unjelly_returned": 3000, "unjelly_raised": 3000, "resolution_events": 1000, "objects_walked": 10000,
+FLOORS = {"method_atoms_generated": 3000, "inherited_or_dunder_method_names": 2000, "method_atom_cases_returned": 150, "unjelly_calls": 20000, "unjelly_returned": 3000, "unjelly_raised": 3000, "resolution_events": 1000, "objects_walked": 10000,
           "canary_selftest_trips": 10, "audit_selftest_blocks": 2, "roundtrips": 500, "roundtrip_shared_or_cyclic": 200,
           "instances_returned": 100, "dangerous_names_generated": 2000}
 READY = True
@@ -169,7 +173,32 @@ def build_modules(canaries):
         self.__dict__.update(state if isinstance(state, dict) else {})
 
     cls(a, "WithSetstate", {"__setstate__": __setstate__})
-    cls(o, "Secret", {"meth": method_for(o)})
+    # classes of the NON-allowed module record every construction (harmless: a list append)
+    clog = []
+
+    def named(mod, qualname, f):
+        f.__module__, f.__qualname__, f.__name__ = mod.__name__, qualname, qualname.rsplit(".", 1)[-1]
+        return f
+
+    def recording_new(clsname):
+        def __new__(cls, *args, **kwargs):
+            clog.append(("new", clsname, cls.__name__))
+            return object.__new__(cls)
+        return named(o, clsname + ".__new__", __new__)
+
+    def base_init(self, *args, **kwargs):
+        clog.append(("init", "Base", type(self).__name__))
+
+    def helper(self=None):
+        clog.append(("helper-called", "Base", None))
+        return "forbidden helper"
+
+    base = cls(o, "Base", {"__new__": recording_new("Base"), "__init__": named(o, "Base.__init__", base_init), "helper": named(o, "Base.helper", helper),
+                           "cm": classmethod(named(o, "Base.cm", lambda c: "cm")), "sm": staticmethod(named(o, "Base.sm", lambda: "sm"))})
+    cls(o, "Secret", {"meth": method_for(o), "__new__": recording_new("Secret")})
+    derived = type("Derived", (base,), {"own": named(a, "Derived.own", lambda self: "own"), "__module__": AMOD, "__qualname__": "Derived"})
+    a.Derived = derived
+    a.construct_log = clog
     for mod, fname in ((a, "plain_function"), (o, "hidden")):
         f = types.FunctionType((lambda: "called").__code__, {}, fname)
         f.__module__, f.__qualname__ = mod.__name__, fname
@@ -293,26 +322,26 @@ def selftest(ctx, env):
 def make_policy(env, k):
     J = env.jelly
     t = J.SecurityOptions()
-    A = env.amod.Allowed
+    A = (env.amod.Allowed, env.amod.Derived)
     if k == 1:
         t.allowBasicTypes()
     elif k == 2:
-        t.allowInstancesOf(A)
+        t.allowInstancesOf(*A)
     elif k == 3:
         t.allowBasicTypes()
         t.allowModules(AMOD)
         t.allowTypes("function", "method", "class", "module", "instance")
     elif k == 4:
-        t.allowInstancesOf(A)
+        t.allowInstancesOf(*A)
         t.allowTypes("function", "method")
     elif k == 5:
-        t.allowInstancesOf(A)
+        t.allowInstancesOf(*A)
         t.allowTypes("method")
     return t
 
 
-POLICY_NAMES = ["default", "basic", "instancesOf(Allowed)", "modules(allowed)+function/method/class/module/instance",
-                "instancesOf(Allowed)+function+method", "instancesOf(Allowed)+method"]
+POLICY_NAMES = ["default", "basic", "instancesOf(Allowed,Derived)", "modules(allowed)+function/method/class/module/instance",
+                "instancesOf(Allowed,Derived)+function+method", "instancesOf(Allowed,Derived)+method"]
 
 
 class Model:
@@ -339,6 +368,10 @@ def walk(ctx, env, model, root):
     from twisted.persisted.crefutil import NotKnown
 
     bad, seen, todo, n = [], set(), [root], 0
+    permitted = list(model.classes | model.registered)
+    # members of an allowed class's OWN namespace are part of that class (what the method atom may hand out);
+    # anything merely inherited is judged by where it is defined
+    own = {id(v) for c in permitted for v in vars(c).values()}
     while todo and n < 400:
         o = todo.pop()
         if id(o) in seen:
@@ -346,6 +379,8 @@ def walk(ctx, env, model, root):
         seen.add(id(o))
         n += 1
         t = type(o)
+        if id(o) in own or (t is types.MappingProxyType and any(o == vars(c) for c in permitted)):
+            continue
         if t in (bytes, int, float):
             continue
         if t in BASIC:
@@ -403,7 +438,10 @@ def function_atom_targets(sexp, model):
 
 
 # ------------------------------------------------------------------ s-expression grammar
-CLASS_NAMES = [AMOD + ".Allowed", AMOD + ".Other", AMOD + ".WithSetstate", OMOD + ".Secret", "fractions.Fraction", "collections.OrderedDict",
+METHOD_NAMES = ["meth", "own", "helper", "helper", "cm", "sm", "__base__", "__base__", "__class__", "__mro__", "__dict__", "__subclasses__", "__init_subclass__",
+                "__new__", "__reduce__", "__init__", "__bases__", "mro", "__module__", "__getattribute__", "__setattr__", "__weakref__", "nonexistent",
+                b"meth", b"helper", b"__base__"]
+CLASS_NAMES = [AMOD + ".Allowed", AMOD + ".Derived", AMOD + ".Derived", OMOD + ".Base", AMOD + ".Other", AMOD + ".WithSetstate", OMOD + ".Secret", "fractions.Fraction", "collections.OrderedDict",
                AMOD + ".Fraction", AMOD + ".Registered", AMOD + ".other.Secret"]
 MODULE_NAMES = ["os", "subprocess", "shutil", "pickle", "builtins", AMOD, OMOD, "fractions", "os.path", "twisted.spread.jelly", AMOD + ".os", AMOD + ".other"]
 REEXPORTS = [AMOD + "." + x for x in ("os", "subprocess", "system", "fork", "popen", "remove", "Popen", "loads", "eval", "exec", "rmtree", "Fraction",
@@ -418,15 +456,25 @@ def plausible(rng, env, depth, stats):
     val = lambda: rng.choice([1, b"v", [b"unicode", b"text"], [b"list", 1, 2], [b"None"], [b"boolean", b"true"], [b"tuple", 1, [b"unicode", b"t"]],
                               [b"dictionary", [[b"unicode", b"k"], 2]], [b"function", (AMOD + ".plain_function").encode()],
                               [b"function", rng.choice(REEXPORTS).encode()], [b"class", (AMOD + ".Allowed").encode()], [b"module", AMOD.encode()]])
-    inst = lambda: [(AMOD + ".Allowed").encode(), [b"dictionary"] + [[[b"unicode", rng.choice([b"x", b"y", b"postUnjelly"])], val() if depth < 2 or rng.random() < 0.7 else plausible(rng, env, depth - 1, stats)]
+    inst = lambda: [rng.choice([AMOD + ".Allowed", AMOD + ".Allowed", AMOD + ".Derived"]).encode(), [b"dictionary"] + [[[b"unicode", rng.choice([b"x", b"y", b"postUnjelly"])], val() if depth < 2 or rng.random() < 0.7 else plausible(rng, env, depth - 1, stats)]
                                                                   for _ in range(rng.randrange(0, 3))]]
     r = rng.random()
     if r < 0.45:
         return inst()
     if r < 0.6:
-        return [b"method", b"meth", inst(), [b"class", (AMOD + ".Allowed").encode()]]
+        m = method_atom(rng, env, depth, stats, True)
+        q = rng.random()
+        if q < 0.5:
+            return m
+        if q < 0.65:
+            return [b"list", m, val()]
+        if q < 0.8:
+            return [b"instance", m, [b"dictionary"]]
+        if q < 0.9:
+            return [b"method", rng.choice(METHOD_NAMES), m, [b"class", (AMOD + ".Derived").encode()]]
+        return [b"method", rng.choice(METHOD_NAMES), [b"None"], m]
     if r < 0.7:
-        return [b"instance", [b"class", (AMOD + ".Allowed").encode()], [b"dictionary", [[b"unicode", b"x"], val()]]]
+        return [b"instance", [b"class", rng.choice([AMOD + ".Allowed", AMOD + ".Derived"]).encode()], [b"dictionary", [[b"unicode", b"x"], val()]]]
     if r < 0.8:
         return [b"list", inst(), val(), [b"reference", 1, inst()], [b"dereference", 1]]
     if r < 0.9:
@@ -465,16 +513,34 @@ def gen(rng, env, depth, stats):
         name = rng.choice(FUNCTION_NAMES) if rng.random() < 0.6 else dangerous()
         return [b"function", name.encode()]
     if r < 0.86:
-        cls = rng.choice([[b"class", rng.choice(CLASS_NAMES).encode()], [b"function", rng.choice(REEXPORTS).encode()], sub()])
+        cls = rng.choice([[b"class", rng.choice(CLASS_NAMES).encode()], [b"function", rng.choice(REEXPORTS).encode()], method_atom(rng, env, depth, stats, True), sub()])
         return [b"instance", cls, state(rng, env, depth, stats)]
     if r < 0.91:
-        return [b"method", rng.choice([b"meth", b"__init__", b"nonexistent", b"__setstate__"]), sub(),
-                rng.choice([[b"class", rng.choice(CLASS_NAMES).encode()], [b"function", rng.choice(REEXPORTS).encode()], sub()])]
+        return method_atom(rng, env, depth, stats)
     if r < 0.97:
         name = rng.choice(CLASS_NAMES + REEXPORTS) if rng.random() < 0.65 else dangerous()
         return [name.encode(), state(rng, env, depth, stats)]
     return rng.choice([[env.regtag, state(rng, env, depth, stats)], [b"foo", sub()], [b"long_int", 5], [b"classobj", b"x"], [b"instance"], [b"method", b"meth"],
                        [b"function"], [b"module", 5], [b"class", b"\xff.\xfe"], [], [5, 6], [[b"list"], 1], [b"__init__", 1]])
+
+
+def method_atom(rng, env, depth, stats, friendly=False):
+    """[method, name, self, class]: own, inherited and dunder names; self None / an instance / anything."""
+    stats["naming"] = True
+    stats["methods"] += 1
+    name = rng.choice(METHOD_NAMES)
+    if name not in ("meth", "own", b"meth"):
+        stats["inherited_or_dunder"] += 1
+    cname = rng.choice([AMOD + ".Derived", AMOD + ".Derived", AMOD + ".Allowed"]) if friendly or rng.random() < 0.7 else rng.choice(CLASS_NAMES)
+    klass = [b"class", cname.encode()] if friendly or rng.random() < 0.85 else gen(rng, env, depth - 1, stats)
+    r = rng.random()
+    if r < 0.45:
+        me = [b"None"]
+    elif r < 0.8 or friendly:
+        me = [rng.choice([AMOD + ".Derived", AMOD + ".Allowed"]).encode(), [b"dictionary"] + ([[[b"unicode", b"x"], 1]] if rng.random() < 0.5 else [])]
+    else:
+        me = gen(rng, env, depth - 1, stats)
+    return [b"method", name, me, klass]
 
 
 def state(rng, env, depth, stats):
@@ -494,9 +560,12 @@ def run_case(ctx, env, i):
     k = rng.randrange(6)
     taster = make_policy(env, k)
     model = Model(env, taster)
-    stats = {"dangerous": 0, "naming": False}
+    stats = {"dangerous": 0, "naming": False, "methods": 0, "inherited_or_dunder": 0}
+    nlog = len(env.amod.construct_log)
     sexp = gen(rng, env, 4, stats)
     ctx.count("dangerous_names_generated", stats["dangerous"])
+    ctx.count("method_atoms_generated", stats["methods"])
+    ctx.count("inherited_or_dunder_method_names", stats["inherited_or_dunder"])
     ctx.evaluated()
     if stats["naming"]:
         ctx.distinct((k, repr(sexp)))
@@ -535,6 +604,16 @@ def run_case(ctx, env, i):
     ctx.count("canary_calls_during_unjelly", len(canary_calls))
     ctx.count("audit_blocks_during_unjelly", len(audit_events))
     problems += [("audit-guard-blocked", "%s %s" % a, None) for a in audit_events]
+    # constructions / calls recorded by the classes of the non-allowed harness module (also when unjelly raised)
+    for what, owner, actual in env.amod.construct_log[nlog:]:
+        if what == "new" and getattr(env.omod, actual, None) is not None:
+            problems.append(("disallowed-class-constructed", "%s.%s.__new__ ran for %s" % (OMOD, owner, actual), getattr(env.omod, actual)))
+        elif what == "helper-called":
+            problems.append(("disallowed-function-called", "%s.Base.helper was called" % OMOD, env.omod.Base.helper))
+        else:
+            ctx.count("allowed_subclass_constructions")
+    if error is None and stats["methods"]:
+        ctx.count("method_atom_cases_returned")
     problems += bad
     if problems:
         targets = function_atom_targets(sexp, model)
